@@ -10,30 +10,30 @@ open Gen
 theorem type_singleton (attrs : List G.Attr) (ta : TypeAttrs) (h : Res.foldlM typeAttrStep {} attrs = .ok ta) :
     (match declInt "singleton" attrs with
      | some a => 0 ≤ a ∧ ta.singleton = some a.toNat
-     | none => ta.singleton = none) := by
-  sorry
+     | none => ta.singleton = none) :=
+  type_singleton_main attrs ta h
 
 theorem enum_singleton (attrs : List G.Attr) (ea : EnumAttrs) (h : Res.foldlM enumAttrStep {} attrs = .ok ea) :
     (match declInt "singleton" attrs with
      | some a => 0 ≤ a ∧ ea.singleton = some a.toNat
-     | none => ea.singleton = none) := by
-  sorry
+     | none => ea.singleton = none) :=
+  enum_singleton_main attrs ea h
 
 /-- the emitted `get()` of a struct singleton is the one-indirection shape at that address, with the
     type's visibility -/
 theorem struct_getter_emitted (reg : Registry) (path : Path) (size align : Nat) (vis : Vis) (td : TypeDefn) (a : Nat)
     (h : td.singleton = some a) :
-    Sexp.mk "singleton-struct" [.str (path.getLast?.getD ""), Emit.visS vis, .int a] ∈ Emit.typeItems reg path size align vis td := by
-  sorry
+    Sexp.mk "singleton-struct" [.str (path.getLast?.getD ""), Emit.visS vis, .int a] ∈ Emit.typeItems reg path size align vis td :=
+  struct_getter_main reg path size align vis td a h
 
 theorem enum_getter_emitted (path : Path) (size : Nat) (vis : Vis) (ed : EnumDefn) (a : Nat) (h : ed.singleton = some a) :
-    Sexp.mk "singleton-enum" [.str (path.getLast?.getD ""), Emit.visS vis, .int a] ∈ Emit.enumItems path size vis ed := by
-  sorry
+    Sexp.mk "singleton-enum" [.str (path.getLast?.getD ""), Emit.visS vis, .int a] ∈ Emit.enumItems path size vis ed :=
+  enum_getter_main path size vis ed a h
 
 theorem no_singleton_no_getter (reg : Registry) (path : Path) (size align : Nat) (vis : Vis) (td : TypeDefn)
     (h : td.singleton = none) :
-    ∀ x ∈ Emit.typeItems reg path size align vis td, Sexp.head? x ≠ some "singleton-struct" := by
-  sorry
+    ∀ x ∈ Emit.typeItems reg path size align vis td, Sexp.head? x ≠ some "singleton-struct" :=
+  no_getter_main reg path size align vis td h
 
 /-- **extern values**: an accepted module's extern value has the declared non-negative address, keeps its
     name and visibility, and one without an address (or with a negative one) is rejected -/
@@ -41,18 +41,18 @@ theorem extern_value_address (s s' : State) (m : G.Module) (path : Path) (h : s.
     ∃ md, s'.getModule path = some md ∧ md.xvals.length = m.xvals.length ∧
       ∀ k (hk : k < m.xvals.length) (hk' : k < md.xvals.length),
         ∃ a : Int, declInt "address" m.xvals[k].attrs = some a ∧ 0 ≤ a ∧ md.xvals[k].addr = a.toNat
-          ∧ md.xvals[k].name = m.xvals[k].name ∧ md.xvals[k].vis = m.xvals[k].vis ∧ md.xvals[k].gty = m.xvals[k].ty := by
-  sorry
+          ∧ md.xvals[k].name = m.xvals[k].name ∧ md.xvals[k].vis = m.xvals[k].vis ∧ md.xvals[k].gty = m.xvals[k].ty :=
+  extern_value_address_main s s' m path h
 
 theorem extern_without_address_rejected (s : State) (m : G.Module) (path : Path)
     (h : ∃ x ∈ m.xvals, declInt "address" x.attrs = none ∨ ∃ a, declInt "address" x.attrs = some a ∧ a < 0) :
-    (s.addModule m path).isOk = false := by
-  sorry
+    (s.addModule m path).isOk = false :=
+  extern_without_address_main s m path h
 
 /-- the accessor emitted for an extern value: `get_<name>`, its visibility, the resolved type, the address -/
 theorem extern_accessor_emitted (x : XValue) (t : DTy) (h : x.ty = some t) :
-    Emit.xvalItem x = Sexp.mk "xaccessor" [Emit.visS x.vis, .str ("get_" ++ x.name), .str (Emit.tyStr t), .int x.addr] := by
-  sorry
+    Emit.xvalItem x = Sexp.mk "xaccessor" [Emit.visS x.vis, .str ("get_" ++ x.name), .str (Emit.tyStr t), .int x.addr] :=
+  extern_accessor_main x t h
 
 /-- the type of an extern value is resolved with the module's scope after all types are resolved, and
     an unresolvable one is an error -/
@@ -60,15 +60,15 @@ theorem extern_value_type (reg : Registry) (m m' : Mod) (h : resolveXVals reg m 
     m'.xvals.length = m.xvals.length ∧
     ∀ k (hk : k < m.xvals.length) (hk' : k < m'.xvals.length),
       ∃ t, reg.resolveTy m.scope m.xvals[k].gty = .ok t ∧ m'.xvals[k].ty = some t ∧ m'.xvals[k].addr = m.xvals[k].addr
-        ∧ m'.xvals[k].name = m.xvals[k].name ∧ m'.xvals[k].vis = m.xvals[k].vis := by
-  sorry
+        ∧ m'.xvals[k].name = m.xvals[k].name ∧ m'.xvals[k].vis = m.xvals[k].vis :=
+  extern_value_type_main reg m m' h
 
 /-- **modelled run-time meaning** of the three shapes (definitions in `Spec/C15.lean`): the struct getter
     returns `None` exactly when the cell at `A` is null and otherwise the pointer stored there; the enum
     getter the value at `A`; the extern accessor the address `A` itself -/
 theorem getter_semantics (mem : Mem) (a : Nat) :
     (execSingletonStruct mem a = none ↔ mem a = 0) ∧ (∀ p, execSingletonStruct mem a = some p → p = mem a ∧ p ≠ 0)
-    ∧ execSingletonEnum mem a = mem a ∧ execExternValue a = a := by
-  sorry
+    ∧ execSingletonEnum mem a = mem a ∧ execExternValue a = a :=
+  getter_semantics_main mem a
 
 end PyxisVerif.C15
